@@ -177,9 +177,9 @@ def ecomaxCfg (mixers : Bool) : Cfg :=
   { n := tbl.length, R := Gen.requestRetries, T := Gen.requestTimeoutMs, product := indexOf "product" tbl 0,
     dep := fun k => k < tbl.length && depOf mixers (tbl.getD k (0, "")).2 }
 
-/-- `while <test>:` of `PhysicalDevice.request` as the translator evaluated it for `retries` = 0..3: the loop body
-(one transmission, one timed wait) runs -/
-def loopRuns (retries : Nat) : Option Bool :=
-  (Gen.requestLoopTest.lookup retries).map (· == 1)
+/-- `PhysicalDevice.request` as the translator probed it (`Gen.requestProbe`): with `retries = r` and no answer the
+request is transmitted this many times before it raises -/
+def probedTransmissions (r : Nat) : Option Nat :=
+  (Gen.requestProbe.find? fun p => p.1 == r).map (·.2.1)
 
 end PlumVerif.Setup
